@@ -31,9 +31,9 @@ def encodeTo : Codec → Val → Flags → Nat → Res Bytes
     if i != 0 || fl.wantzero then encodeVarintTo avail (fl.u64 i) else .ok []
   | .uint, .int i, fl, avail | .uint32, .int i, fl, avail | .uint64, .int i, fl, avail =>
     if i != 0 || fl.wantzero then encodeVarintTo avail (BitVec.ofInt 64 i) else .ok []
-  | .fixed32, .int i, fl, avail =>
+  | .fixed32, .int i, fl, avail | .sfixed32, .int i, fl, avail =>
     if i != 0 || fl.wantzero then (if avail < 4 then short else .ok (le32 (BitVec.ofInt 32 i))) else .ok []
-  | .fixed64, .int i, fl, avail =>
+  | .fixed64, .int i, fl, avail | .sfixed64, .int i, fl, avail =>
     if i != 0 || fl.wantzero then (if avail < 8 then short else .ok (le64 (BitVec.ofInt 64 i))) else .ok []
   | .float32, .float b, fl, avail =>
     if b != 0 || fl.wantzero then (if avail < 4 then short else .ok (le32 (BitVec.ofNat 32 b))) else .ok []
